@@ -36,12 +36,13 @@ CLAUSES = {
         "proved [ideal, C05_gal_rotation + C05_gal_inverse + C05_inverse_directions] with the same exclusion of exact input poles; poles and binary64 accuracy: unproved (searched)",
     "each conversion is the documented rotation of the direction (every formula/constant/sign pinned)":
         "proved [ideal, C05_closed_forms (all reals; meaningless where cos(input latitude) = 0 because the ideal tan is junk there), C05_*_rotation (-90 < input latitude < 90)]",
-    "longitudes in their documented range ([0,360); azimuth / hour angle (-180,180]), latitudes in [-90,90]": "proved [ideal, C05_*_rotation, same domain]; binary64 searched everywhere",
+    "longitudes in their documented range, latitudes in [-90,90]":
+        "per function: equatorial2ecliptical (longitude), ecliptical2equatorial (right ascension), equatorial2galactic (longitude), galactic2equatorial (right ascension): [0,360), the code applies to_positive - proved [ideal, C05_*_rotation] and searched strictly (0 <= x < 360); equatorial2horizontal (azimuth, westward from the South) and horizontal2equatorial (hour angle): the docstrings give no numeric range and the code returns Angle(atan2(..)) without to_positive - proved (-180,180] [ideal, C05_hor_rotation]; the search accepts [-180,180] (binary64 atan2 returns -pi for (-0.0, negative), i.e. -180.0 = the same direction); latitudes [-90,90] proved and searched for all six; domain of the proofs as above",
     "the angle between any two directions is unchanged": "proved exactly [ideal, C05_dot_preserved, both inputs off the exact poles]; binary64 1e-9 deg searched incl. poles",
     "angular separation = dot-product value (cos theta = sin d1 sin d2 + cos d1 cos d2 cos da), 0..180, symmetric":
         "proved [ideal, C05_separation: exact expression of the code, hc = 1 - h for exactly that expression, cosine rule, range, symmetry; all angles in (-360,360)]; binary64 1e-9 deg for 1e-7..179.999 deg: unproved (searched against a 60-digit reference)",
     "relative position angle = cross/dot-product value; antisymmetric":
-        "proved [ideal, C05_position_angle: exact expression of the code; delta-alpha in [-180,180] with zero rounding term for right ascensions in [0,360) and congruent to a1-a2 mod 360 always; both x forms = u1.north2; equals Meeus' quotient form for cos d1 > 0; negates when the two RIGHT ASCENSIONS are exchanged (declinations kept, cos d1 sin da <> 0) - the exchange of the two bodies is not a negation on the sphere and is not claimed]; binary64 1e-9 deg: unproved (searched against a 60-digit reference; known finding position-angle-value-near-pole: both |delta| > 89.999 deg and deviation <= 1e-6 deg)",
+        "proved [ideal, C05_position_angle: exact expression of the code; delta-alpha in [-180,180] with zero rounding term for right ascensions in [0,360) and congruent to a1-a2 mod 360 always; both x forms = u1.north2; equals Meeus' quotient form for cos d1 > 0; negates when the two RIGHT ASCENSIONS are exchanged (declinations kept, cos d1 sin da <> 0): that is what 'antisymmetric' is taken to mean; the exchange of the two BODIES is not a negation on the sphere and no theorem claims it]; binary64 1e-9 deg: unproved, searched for every direction incl. exact poles against a 60-digit reference (at an exact pole 'north' is the limit along the meridian of the stated right ascension: body 1 at the north/south pole gives 0/180 deg, body 2 at a pole gives the direction of body 1's meridian - the value of the formula, accepted because the reference evaluates the same limit exactly); searched additionally: RA exchange negates, and body exchange: P12 and P21 are the two ends of one great-circle arc (t1 = -(t2 cos s - u2 sin s), convergence of the meridians included) to 1e-9 deg ( known finding position-angle-value-near-pole: both |delta| > 89.999 deg and deviation <= 1e-6 deg)",
     "circle_diameter between the largest separation a and 2a/sqrt(3)": "proved [ideal, C05_circle_closed_form + C05_circle_bounds + C05_circle_geometry: for any three separations in 0..180 (abstracted; their values are C05_separation) the code selects the largest as a, applies a or 2abc/sqrt((a+b+c)(a+b-c)(b+c-a)(a+c-b)) according to a >= sqrt(b^2+c^2), and a <= result <= 2a/sqrt(3)]; binary64 searched",
     "straight_line (angle between the great circles / distance from the great circle)": "unproved (searched against a cross-product reference); correspondence bit-exact",
     "binary64 rounding of all the above": "unproved (searched with the property's tolerances; correspondence is bit-exact with traced libm); there is no binary64 theorem for this property",
@@ -280,6 +281,29 @@ def r_triple(rng):
     return out
 
 
+def d_basis(lon, lat):
+    """(u, east, north) at a direction, 60 digits; at a pole the limit along the stated meridian"""
+    sl, cl = d_sincos(_D(lon) * _D2R); sb, cb = d_sincos(_D(lat) * _D2R)
+    return (cb * cl, cb * sl, sb), (-sl, cl, _D(0)), (-sb * cl, -sb * sl, cb)
+
+
+def exchange_defect(a1, d1, a2, d2, p12, p21):
+    """angle (degrees) between the departure direction at body 1 given by p21 and minus the arrival
+    direction of the great-circle arc that leaves body 2 in the direction p12"""
+    u1, e1, n1 = d_basis(a1, d1); u2, e2, n2 = d_basis(a2, d2)
+    s12, c12 = d_sincos(_D(p12) * _D2R); s21, c21 = d_sincos(_D(p21) * _D2R)
+    t2 = tuple(s12 * e2[i] + c12 * n2[i] for i in range(3))
+    t1 = tuple(s21 * e1[i] + c21 * n1[i] for i in range(3))
+    cr = (u2[1] * u1[2] - u2[2] * u1[1], u2[2] * u1[0] - u2[0] * u1[2], u2[0] * u1[1] - u2[1] * u1[0])
+    ss = (cr[0] * cr[0] + cr[1] * cr[1] + cr[2] * cr[2]).sqrt()
+    cs = u1[0] * u2[0] + u1[1] * u2[1] + u1[2] * u2[2]
+    w = tuple(-(t2[i] * cs - u2[i] * ss) for i in range(3))
+    cx = (t1[1] * w[2] - t1[2] * w[1], t1[2] * w[0] - t1[0] * w[2], t1[0] * w[1] - t1[1] * w[0])
+    n = (cx[0] * cx[0] + cx[1] * cx[1] + cx[2] * cx[2]).sqrt()
+    dt = t1[0] * w[0] + t1[1] * w[1] + t1[2] * w[2]
+    return float(d_atan2(n, dt) / _D2R)
+
+
 def pa_regime(d1, d2, dev):
     """known finding C05/position-angle-value-near-pole: both bodies within a millidegree of a
     pole (cos(delta) from radians next to pi/2) and the deviation small; everything else is
@@ -369,22 +393,34 @@ class Oracle:
         s2 = self.call("angular_separation", (a2, d2, a1, d1))
         if s2 is not None and not abs(s - s2) <= TOL:
             self.add("separation-symmetry", "%s = %r but swapped = %r" % (expr, s, s2), list(args), expr)
-        # position angle
-        if abs(d1) >= 90.0 - 1e-6 or abs(d2) >= 90.0 - 1e-6: return
+        # position angle: every direction, poles included.  At an exact pole "north" is a
+        # convention: the reference (and the code) use the formula's limit along the meridian of
+        # the stated right ascension: body 1 at the north (south) pole -> 0 (180) degrees; body 2
+        # at a pole -> atan2(sin da, -+cos da), i.e. the direction of body 1's meridian.
         p = self.call("relative_position_angle", args)
         if p is None: return
         pexpr = "relative_position_angle(%s)" % ", ".join(A(x) for x in args)
         pref = ref_pa_hp(a1, d1, a2, d2)
         e = abs(angle_diff(p, pref))
         if not e <= TOL:
-            # alpha1 - alpha2 is formed in the 0..360 representation: across the seam the tiny true
-            # difference inherits the rounding of a number near 360 (distinct call-site key)
             self.add("position-angle-value" + pa_regime(d1, d2, e), "%s = %r, cross/dot-product value %r (diff %.3g deg, separation %.3g deg)" % (pexpr, p, pref, e, ref), list(args), pexpr)
+        # 'antisymmetric' (a): exchanging the two right ascensions (declinations kept) negates it
         q = self.call("relative_position_angle", (a2, d1, a1, d2))
         if q is not None and abs(math.sin((a1 - a2) * D2R)) > 1e-12:
             e = abs(angle_diff(q, -p))
             if not e <= TOL:
                 self.add("position-angle-antisymmetry" + pa_regime(d1, d2, e), "%s = %r but with the right ascensions exchanged %r (sum %.3g deg)" % (pexpr, p, q, e), list(args), pexpr)
+        # (b): exchanging the two BODIES.  P12 and P21 are not negatives of each other on the sphere;
+        # what holds is that they are the two ends of one great-circle arc: the departure direction at
+        # body 1 towards body 2 is minus the arrival direction of the arc from body 2 (convergence of
+        # the meridians included): t1 = -(t2 cos s - u2 sin s), t_i = sin P e_i + cos P n_i.
+        p21 = self.call("relative_position_angle", (a2, d2, a1, d1))
+        if p21 is not None:
+            e = exchange_defect(a1, d1, a2, d2, p, p21)
+            if not e <= TOL:
+                self.add("position-angle-value-near-pole" if pa_regime(d1, d2, e) else "position-angle-body-exchange",
+                         "%s = %r and with the bodies exchanged %r are not the two ends of one great-circle arc (%.3g deg)" % (pexpr, p, p21, e),
+                         list(args), "(%s, relative_position_angle(%s))" % (pexpr, ", ".join(A(x) for x in (a2, d2, a1, d1))))
 
     def triple(self, t):
         args = tuple(t)
@@ -422,6 +458,14 @@ SEAM_PAIRS = [(1e-09, 23.44, 359.9999998212554, 23.439997306158443),
               (359.999999999, 21.262033144139757, 7.346143320319243e-07, 21.262034681122703)]
 
 
+# both bodies within a micro-degree of the same pole, and one body exactly at a pole
+POLE_PAIRS = [(43.70914823398642, -89.99999984875745, 166.26056288892119, -89.9999999927867),
+              (186.6658622428218, 89.99999991996376, 296.57116130361595, 89.99999994870872),
+              (239.87600809658426, 90.0, 150.94423176857595, 89.99982181733273),
+              (215.39554990664337, -89.999999, 220.8436952332107, -90.0),
+              (10.0, 90.0, 200.0, 35.0), (200.0, 35.0, 10.0, 90.0), (77.0, -90.0, 300.0, -89.0)]
+
+
 def search(rng, tier, deep):
     mods = load(["Angle", "Coordinates"])
     O = Oracle(mods)
@@ -440,6 +484,8 @@ def search(rng, tier, deep):
         O.separation(a1, d1, a2, d2)
         if i < len(SEAM_PAIRS):
             O.separation(*SEAM_PAIRS[i])
+        if i < len(POLE_PAIRS):
+            O.separation(*POLE_PAIRS[i])
         if i % 4 == 0:
             O.pair2("equatorial2ecliptical", (a1, d1), (a2, d2), (eps,), "pos")
             O.pair2("ecliptical2equatorial", (a1, d1), (a2, d2), (eps,), "pos")
